@@ -81,11 +81,15 @@ class Lifetime:
         self.gw = self.driver.gw
         self.path = path
         if start:
-            fake.owner = self
-            try:
-                self.gw.start_persistence()
-            finally:
-                fake.owner = None
+            self.start()
+
+    def start(self):
+        """start_persistence(): load what is on disk, first save, arm the periodic timer."""
+        self.fake.owner = self
+        try:
+            self.gw.start_persistence()
+        finally:
+            self.fake.owner = None
 
     def tick(self):
         """The periodic timer fires (if one is armed). Returns the exception, if any."""
